@@ -183,7 +183,12 @@ func genOne(r *rng.R, idx int, seed uint64, mode string, gated, concrete bool, t
 		p.Post[CT] = r.Intn(p.Len[CT]-p.Early+1) % 5000
 	}
 	if mode == "uphttp" || mode == "uphttps" {
-		p.ReplyVariant = r.Intn(5)
+		p.ReplyVariant = r.Intn(len(upReplies))
+		if v := p.ReplyVariant; v == 5 || v == 6 {
+			// a 2xx reply to CONNECT declaring a body: if the proxy honours the declaration the tunnel
+			// loses bytes or never starts; do not wait long for that
+			p.TimeoutMs = 2500
+		}
 	}
 	if mode == "connectfunc" {
 		p.FnWrap = r.Intn(2) == 0
@@ -267,6 +272,14 @@ func coqObs(o outcome, concrete bool) string {
 		pre, b2c(o.res.ClosedUp), pre, b2c(o.res.ClosedDown), pre, b2c(o.res.Timeout))
 }
 
+func coqFraming(p Params) string {
+	if p.Mode != "uphttp" && p.Mode != "uphttps" {
+		return "(mkFr false 0 true)"
+	}
+	f := upFraming[p.ReplyVariant%len(upFraming)]
+	return fmt.Sprintf("(mkFr %s %d %s)", b2c(f[0] == 1), f[1], b2c(f[2] == 1))
+}
+
 func coqCase(o outcome, graceNs int64) string {
 	p := o.res.P
 	var sb strings.Builder
@@ -281,11 +294,11 @@ func coqCase(o outcome, graceNs int64) string {
 		}
 		ok := len(o.built.Problems) == 0
 		if p.Concrete {
-			fmt.Fprintf(&sb, "{| cc_mode := %d; cc_wellformed := %s; cc_grace := (%d)%%Z; cc_early := %s; cc_skip := %s; cc_kept := %s;\n   cc_trace := %s;\n   cc_obs := %s |}",
-				modeN(p.Mode), b2c(ok), graceNs, hexs(o.built.Early), hexs(o.built.Skip), hexs(o.built.Kept), tr, coqObs(o, true))
+			fmt.Fprintf(&sb, "{| cc_mode := %d; cc_wellformed := %s; cc_grace := (%d)%%Z; cc_fr := %s; cc_early := %s; cc_skip := %s; cc_kept := %s;\n   cc_trace := %s;\n   cc_obs := %s |}",
+				modeN(p.Mode), b2c(ok), graceNs, coqFraming(p), hexs(o.built.Early), hexs(o.built.Skip), hexs(o.built.Kept), tr, coqObs(o, true))
 		} else {
-			fmt.Fprintf(&sb, "{| ac_mode := %d; ac_wellformed := %s; ac_grace := (%d)%%Z; ac_early := %d; ac_skip := %d; ac_kept := %d;\n   ac_trace := %s;\n   ac_obs := %s |}",
-				modeN(p.Mode), b2c(ok), graceNs, o.built.EarlyN, o.built.SkipN, o.built.KeptN, tr, coqObs(o, false))
+			fmt.Fprintf(&sb, "{| ac_mode := %d; ac_wellformed := %s; ac_grace := (%d)%%Z; ac_fr := %s; ac_early := %d; ac_skip := %d; ac_kept := %d;\n   ac_trace := %s;\n   ac_obs := %s |}",
+				modeN(p.Mode), b2c(ok), graceNs, coqFraming(p), o.built.EarlyN, o.built.SkipN, o.built.KeptN, tr, coqObs(o, false))
 		}
 		return sb.String()
 	}
@@ -294,7 +307,7 @@ func coqCase(o outcome, graceNs int64) string {
 
 const shardHead = `From Coq Require Import List NArith ZArith String.
 From FwdLib Require Import Bytes.
-From G03 Require Import Tables Tunnel Abstract Check.
+From G03 Require Import Tables Tunnel Abstract ReplyReader Check.
 Import ListNotations.
 Open Scope N_scope.
 `
